@@ -6,6 +6,8 @@ Real code driven (in-process, real files under a scratch directory, file I/O wra
   StatusMonitor.try_generate_status_details                (output/status_details.json)
   FlowIRExperimentConfiguration.store_unreplicated_flowir_to_disk / _generate_instance_files
                                                            (conf/flowir_instance.yaml, conf/manifest.yaml)
+  Experiment._store_extracted_input_ids / _store_additional_input_data / _store_extracted_measured_properties
+                                          (output/input-ids.json, additional_input_data.json, properties.csv)
 For every update: the fault-free operation trace is compared with the model's protocol; then the
 update is re-run from the same state once per fault (process death / I/O error at operation k, after j
 characters of a write) and the trace shape + on-disk files are compared with the model, and the
@@ -36,12 +38,14 @@ ASSUMPTIONS = [
     'file may merge several write() calls into one system call, which only removes crash points',
     'json.dump / yaml_dump / ConfigurationFileToJson / repr+literal_eval of the stage list are oracles: their '
     'output text is an input of the model',
-    'characters are code points < 256 in the model; larger code points are checked on the real code only',
+    'file-level codec model: characters are code points < 256 (larger ones in values other than error-description are '
+    'checked on the real code only); the escaping of error-description is modelled and proved over all code points (Fs.Wide)',
 ]
 HEADER = 'Require Import V.Lib.PyStr V.Fs.Model.\nOpen Scope string_scope.'
 ED = 'error-description'
 
-F_BLANKS = 'status_value_with_outer_blanks'
+F_BLANKS = 'outer_blanks_in_status_value_other_than_error_description'
+HEADER_W = 'Require Import V.Lib.PyStr V.Fs.Model V.Fs.Wide.\nOpen Scope string_scope.'
 F_BREAK = 'line_break_in_status_value_other_than_error_description'
 
 
@@ -177,11 +181,11 @@ def gen_inner(rng, maxlen=8, uni=0.0):
 
 
 def gen_ed(rng, uni=0.0):
-    """error description: any characters, no outer blanks"""
-    while True:
-        v = gen_text(rng, 12, uni)
-        if v == v.strip():
-            return v
+    """error description: any characters; often with outer white space / a final line break (a traceback)"""
+    v = gen_text(rng, 12, uni)
+    if rng.random() < 0.3:
+        v = rng.choice(['', ' ', '\n', '\t', '\xa0', '  ']) + v + rng.choice(['\n', ' ', '\r\n', '\x85', '\n\n'])
+    return v
 
 
 class FakeDT(_dt.datetime):
@@ -196,7 +200,7 @@ def status_classes(d):
     cl = []
     if any(('\n' in v or '\r' in v) for k, v in d.items() if k != ED):
         cl.append(F_BREAK)
-    if any(v != v.strip() for v in d.values()):
+    if any(v != v.strip() for k, v in d.items() if k != ED):
         cl.append(F_BLANKS)
     return cl
 
@@ -554,8 +558,11 @@ def gen_histories(rng, tier):
                'updates': [[(ED, 'a\nb')], [('cost', 1)], [('cost', 2)]], 'corpus': 'F14a'})
     hs.append({'init': {}, 'stages': ['hello'],
                'updates': [[(ED, 'hello\n    world')], []], 'corpus': 'test_read_write_status_file'})
-    # witnesses of the open findings F14c, F14d
-    hs.append({'init': {}, 'stages': ['stage0'], 'updates': [[(ED, 'boom\n')]], 'corpus': 'F14c'})
+    # witness of F14c (repaired: the error description is read back with its outer white space)
+    hs.append({'init': {}, 'stages': ['stage0'], 'updates': [[(ED, 'boom\n')], [(ED, ' \n two\t\n ')], [('cost', 1)]],
+               'corpus': 'F14c'})
+    # witnesses of the open findings F14d, F14f
+    hs.append({'init': {}, 'stages': ['stage0'], 'updates': [[('exit-status', ' x')]], 'corpus': 'F14f'})
     hs.append({'init': {}, 'stages': ['stage0'], 'updates': [[('exit-status', 'x\ncost=99')]], 'corpus': 'F14d'})
     for i in range(n):
         nup = rng.randint(1, 6)
@@ -572,8 +579,6 @@ def gen_histories(rng, tier):
             sets = []
             if rng.random() < 0.75:
                 v = gen_ed(rng, uni)
-                if inside and rng.random() < 0.5:
-                    v = rng.choice([' ', '\n', '\t', '\xa0']) + v + rng.choice(['', '\n', ' '])
                 sets.append((ED, v))
             elif rng.random() < 0.2:
                 sets.append((ED, None))
@@ -963,16 +968,185 @@ def run_instance(ctx, rng, terms):
         shutil.rmtree(tmp, ignore_errors=True)
 
 
+# ------------------------------------------------------------------ output/input-ids.json, additional_input_data.json, properties.csv
+class IfaceUpd(Updater):
+    """Experiment._store_extracted_input_ids / _store_additional_input_data / _store_extracted_measured_properties
+    (the files of the experiment interface that the st4sd API / a restart read while the experiment runs)"""
+    keep_files = ()
+    dense = False
+
+    def __init__(self, D, root, which, value):
+        self.D = D
+        self.which = which
+        self.value = value
+        self.base = {'ids': 'input-ids.json', 'extra': 'additional_input_data.json', 'props': 'properties.csv'}[which]
+        self.kind = 'interface:' + self.base
+        self.targets = (self.base,)
+        self.dirs = {self.base: 'output'}
+        ns = types.SimpleNamespace(instanceDirectory=types.SimpleNamespace(outputDir=os.path.join(root, 'output')))
+        ns.get_input_ids = lambda return_copy=True: value
+        ns.get_additional_input_data = lambda return_copy=True: value
+        ns._measured_properties = value
+        self.ns = ns
+        self.errors = []
+
+    def prepare(self):
+        pass
+
+    def commit(self):
+        pass
+
+    def call(self):
+        f = {'ids': self.D.Experiment._store_extracted_input_ids, 'extra': self.D.Experiment._store_additional_input_data,
+             'props': self.D.Experiment._store_extracted_measured_properties}[self.which]
+        try:
+            f(self.ns)
+        except Exception as e:       # the callers report the error, the experiment goes on
+            self.errors = [e]
+
+    def model_term(self, base):
+        return '(file_update %s %s)' % (s_(self.base), clist([o[2] for o in base if o[0] == 'append'], s_))
+
+    def classes(self):
+        return []
+
+    def classes_atomic(self):
+        return []
+
+    def is_alt_new(self, b, c):
+        return False
+
+    def parse(self, text):
+        if self.which == 'props':
+            import io
+            import pandas
+            return pandas.read_csv(io.StringIO(text), sep=None, engine='python').to_dict(orient='list')
+        return json.loads(text)
+
+    def check_new(self, new):
+        t = new[self.base]
+        if t is None:
+            return '%s missing after a completed update' % self.base
+        try:
+            got = self.parse(t)
+        except Exception as e:
+            return '%s does not load: %s' % (self.base, type(e).__name__)
+        want = self.value.to_dict(orient='list') if self.which == 'props' else json.loads(json.dumps(self.value))
+        if got != want:
+            return '%s reads back %r, written %r' % (self.base, got, want)
+        return None
+
+    def loads(self, b, text):
+        try:
+            self.parse(text)
+        except Exception as e:
+            return 'loading raised %s' % type(e).__name__
+        return None
+
+
+def run_iface(ctx, rng, terms):
+    import experiment.model.data as D
+    import pandas
+    tmp = tempfile.mkdtemp(prefix='verif_c14_')
+    try:
+        # corpus: witness of F14g - death right after the truncating open / I/O error in the middle of the document
+        root = os.path.join(tmp, 'c0')
+        os.makedirs(os.path.join(root, 'output'))
+        for val in (['mol-0', 'mol-1'], ['mol-0', 'mol-1', 'mol-2']):
+            explore_update(ctx, root, IfaceUpd(D, root, 'ids', val), rng, terms, {'corpus': 'F14g', 'value': val},
+                           faults=[('die', 1, 0), ('eio', 3, 1), ('die', 0, 0), ('eio', 0, 0)])
+        nh = 3 if ctx.tier == 'quick' else 20
+        for hi in range(nh):
+            root = os.path.join(tmp, 'i%d' % hi)
+            os.makedirs(os.path.join(root, 'output'))
+            for ui in range(rng.randint(1, 3)):
+                ids = [gen_text(rng, 6, 0.1) or 'id%d' % i for i in range(rng.randint(0, 4))]
+                which = rng.choice(['ids', 'extra', 'props'])
+                if which == 'ids':
+                    v = ids
+                    dv = v
+                elif which == 'extra':
+                    v = {i: ['/tmp/data/%s' % (gen_inner(rng, 5) or 'f') for _ in range(rng.randint(0, 2))] for i in ids}
+                    dv = v
+                else:
+                    ids = sorted(set('id-%d' % rng.randint(0, 9) for _ in range(rng.randint(1, 4))))
+                    v = pandas.DataFrame({'input-id': ids, 'band-gap': [rng.choice([1.5, 2.25, -0.5]) for _ in ids],
+                                          'label': [rng.choice(['a b', 'x', 'q-r']) for _ in ids]})
+                    dv = v.to_dict(orient='list')
+                explore_update(ctx, root, IfaceUpd(D, root, which, v), rng, terms,
+                               {'history': hi, 'update': ui + 1, 'file': which, 'value': dv})
+    finally:
+        shutil.rmtree(tmp, ignore_errors=True)
+
+
+# ------------------------------------------------------------------ escaping over all code points
+WIDE_CP = [0, 9, 10, 13, 31, 32, 39, 61, 92, 126, 127, 128, 133, 160, 233, 255, 256, 257, 0x3b1, 0x7ff, 0x800, 0x2028, 0x20ac,
+           0x3000, 0xd7ff, 0xd800, 0xdfff, 0xe000, 0xfffd, 0xffff, 0x10000, 0x1f600, 0xfffff, 0x100000, 0x10ffff]
+WIDE_PIECES = ['\\', '\\n', '\\t', '\\x41', '\\xe9', '\\xZ1', '\\x4', '\\u0100', '\\u20AC', '\\ud800', '\\u12', '\\u12g4',
+               '\\U0001f600', '\\U0010FFFF', '\\U00110000', '\\U0001f60', '\\UFFFFFFFF', '\\101', '\\777', '\\400', '\\7',
+               '\\18', '\\8', '\\q', '\\"', "\\'", '\\a', '\\\n', '\\\\', ' ', 'n', 'u', 'U', 'x', '0', '1', 'f',
+               '\xe9', '\u0100', '\u20ac', '\U0001f600', '\x7f', '\x80', '\n', '=']
+
+
+def cw(cps):
+    return clist(list(cps), lambda n: '%d%%N' % n)
+
+
+def run_wide(ctx, rng, esc_terms, unesc_terms):
+    """the two expressions of the status codec on strings of any code points (real str methods = the real code's
+    writer/loader expressions), against Fs.Wide; predicate: the loader's expression inverts the writer's"""
+    def w_esc(x):
+        return x.encode('unicode_escape').decode('utf-8')
+
+    def w_unesc(x):
+        return x.encode('utf-8').decode('unicode_escape')
+    import warnings
+    n = 150 if ctx.tier == 'quick' else 1500
+    for i in range(n):
+        L = rng.randint(0, 8)
+        cps = [rng.choice(WIDE_CP) if rng.random() < 0.7 else rng.randrange(0x110000) for _ in range(L)]
+        v = ''.join(chr(c) for c in cps)
+        e = w_esc(v)
+        back = None
+        try:
+            with warnings.catch_warnings():
+                warnings.simplefilter('ignore')
+                back = w_unesc(e)
+        except Exception as ex:
+            back = 'raised %s' % type(ex).__name__
+        ctx.case(['wide-escape', cps], any(c > 255 for c in cps))
+        ctx.count('wide_escape_cases')
+        if back != v or not all(32 <= ord(ch) <= 126 for ch in e):
+            ctx.fail({'kind': 'wide-escape', 'code_points': cps}, 'error description %r is escaped as %r and un-escaped as %r'
+                     % (v, e, back), [])
+        esc_terms.append((cpair(cw(cps), s_(e)), {'kind': 'wide-escape', 'code_points': cps}))
+    for i in range(n):
+        t = ''.join(rng.choice(WIDE_PIECES) for _ in range(rng.randint(0, 5)))
+        if '\\N' in t:
+            continue
+        try:
+            with warnings.catch_warnings():
+                warnings.simplefilter('ignore')
+                got = [ord(c) for c in w_unesc(t)]
+            ctx.count('wide_unescape_ok')
+        except UnicodeDecodeError:
+            got = None
+            ctx.count('wide_unescape_raises')
+        ctx.case(['wide-unescape', t], True)
+        unesc_terms.append((cpair(cw([ord(c) for c in t]), copt(got, cw)), {'kind': 'wide-unescape', 'text': t}))
+
+
 # ------------------------------------------------------------------ entry points
-def _finish_terms(ctx, terms, checker, name, chunk):
-    bad = ctx.model_mismatches(HEADER, [t for t, _ in terms], checker, chunk=chunk, name=checker)
+def _finish_terms(ctx, terms, checker, name, chunk, header=None):
+    bad = ctx.model_mismatches(header or HEADER, [t for t, _ in terms], checker, chunk=chunk, name=checker)
     for k, i in enumerate(bad):
         ctx.disagree(terms[i][1], 'observed trace/files/loader result (see term)', 'model Fs.Model.%s rejects it' % checker, name)
 
 
 def run(ctx):
     ctx.rule = ('one case = (state-file updater, update, fault): updater in {Status.update, updateLogs, '
-                'try_generate_status_details, store_unreplicated_flowir_to_disk, _generate_instance_files}, update = '
+                'try_generate_status_details, store_unreplicated_flowir_to_disk, _generate_instance_files, Experiment._store_* of the '
+                'interface files}, update = '
                 'position 1..6 in a history with values from a set containing line breaks = \\ quotes # % blanks NUL '
                 'latin-1 and wider code points, fault = process death or I/O error at operation k after j characters; '
                 'plus loader cases (printed, truncated, hand-made status files). non-trivial = a previous version of the '
@@ -987,11 +1161,18 @@ def run(ctx):
     run_details(ctx, rng, terms)
     t2 = time.time()
     run_instance(ctx, rng, terms)
+    run_iface(ctx, rng, terms)
     t3 = time.time()
     ctx.extra['drive_s'] = {'status': round(t1 - t0, 1), 'logs+details': round(t2 - t1, 1), 'instance': round(t3 - t2, 1)}
     _finish_terms(ctx, terms, 'check_update', 'C14 protocol: operation trace and files after every fault vs Fs.Model.exec/run', 12)
     _finish_terms(ctx, print_terms, 'check_print', 'C14 codec: Status.writeToStream vs Fs.Model.status_print', 60)
     _finish_terms(ctx, parse_terms, 'check_parse', 'C14 codec: Status.statusFromFile vs Fs.Model.status_parse', 60)
+    esc_terms, unesc_terms = [], []
+    run_wide(ctx, rng, esc_terms, unesc_terms)
+    _finish_terms(ctx, esc_terms, 'check_wescape', "C14 codec, all code points: str.encode('unicode_escape') vs Fs.Wide.escape_w",
+                  400, HEADER_W)
+    _finish_terms(ctx, unesc_terms, 'check_wunescape',
+                  "C14 codec, all code points: encode('utf-8').decode('unicode_escape') vs Fs.Wide.unescape_text", 400, HEADER_W)
     ctx.extra['updates_modelled'] = len(terms)
 
 
